@@ -201,6 +201,21 @@ def hist_case(mode, text, k):
 REPS = ['A', '@', '€', '[', 'Α', '中', '\U0001F600', '\x1b']
 
 
+def unicode_reps():
+    """first code point(s) of every general category and of every canonical combining class"""
+    import unicodedata
+    seen = {}
+    for cp in itertools.chain(range(0x20, 0x3000), range(0xFE00, 0xFE10), range(0xFFF0, 0x10000), range(0x1F3FB, 0x1F400),
+                              range(0xE0100, 0xE0104)):
+        ch = chr(cp)
+        if 0xD800 <= cp < 0xE000:
+            continue
+        key = (unicodedata.category(ch), unicodedata.combining(ch))
+        if seen.get(key, 0) < 2:
+            seen[key] = seen.get(key, 0) + 1
+            yield ch
+
+
 def generate(rng, tier):
     thorough = tier == 'thorough'
     # 1. single code points, every mode
@@ -260,6 +275,12 @@ def generate(rng, tier):
         n = rng.randrange(1, 40)
         data = [rng.choice((rng.randrange(128), rng.randrange(256), spec.ESC, 0x65)) for _ in range(n)]
         yield dec_case(rng.choice(MODES), data)
+    # 5b. one representative of every Unicode general category and of every canonical combining class (combining marks,
+    #     joiners, variation selectors, format characters ...) after, between and before alphabet characters, all modes
+    for r in unicode_reps():
+        for m in MODES:
+            for t in ('e' + r, 'e' + r + 'z', r + 'z', '€' + r + r, 'a' + r + '[' + r):
+                yield enc_case(m, t)
     # 6. history independence: texts that have been through both codecs before
     for _ in range(3000 if thorough else 500):
         n = rng.randrange(1, 30)
